@@ -145,7 +145,7 @@ loc.update({"hasarg": [90, 91, 92, 93, 94, 95, 96, 97, 98, 99, 100, 101, 102, 10
                        243, 244, 245, 246, 247, 248, 249, 250, 251, 252, 253, 254, 260, 261, 262, 263, 264, 265, 266]})
 
 # new hasexc table
-loc.update({"hasexc":[264, 265, 266]})
+loc.update({"hasexc": [256, 257, 258]})
 
 ### add new arg formats
 _intrinsic_1_descs = [
